@@ -161,6 +161,14 @@ def serverServe (m : PathB → PathB → Bool) (errLen : Nat → Nat) (rules : L
   else if r.ret ≥ 400 then { r with client := clientOps (errorOps errLen r.ret) r.client }
   else r
 
+/-- The `errors` middleware (caskethttp/errors, default configuration) sitting between `log` and
+the handler: it answers a returned status >= 400 itself (through the writer it was given, i.e. the
+recorder) and recovers a panic with a 500; either way it returns 0. -/
+def withErrors (errLen : Nat → Nat) (o : Outcome) : Outcome :=
+  if o.panics then { ops := o.ops ++ errorOps errLen 500, ret := 0, panics := false }
+  else if o.ret ≥ 400 then { ops := o.ops ++ errorOps errLen o.ret, ret := 0, panics := false }
+  else o
+
 /-- `httpserver.Path.Matches` on clean paths (no `.`/`..`/empty segments — what the stream
 generates; the general function is C03's): "/" and "" match everything, otherwise a prefix test on
 the lower-cased text (`CaseSensitivePath` is false by default). -/
